@@ -846,6 +846,50 @@ func c14FourthRound(ctx *Ctx, r *Report) {
 		r.Check(prepares, "skeleton/constructor-args-by-kind", lang+" converter template prepares constructor arguments", token.NoPos, ts.file["converter"]+": constructor arguments go through prepare_arg",
 			ts.file["converter"]+": the constructor arguments are printed without prepare_arg: builder, array, map and union arguments are rendered as plain values")
 	}
+	// (a') a constructor argument can be absent from the input (an optional field promoted to the constructor): its
+	// not-nil guards are computed like those of options, and the Go template tests them before it dereferences
+	if ctorFn != nil {
+		if fd, _ := ctx.DeclOf(ctorFn); fd != nil {
+			guardFn := ctx.LookupMethod("internal/languages", "ConverterGenerator", "pathNotNullGuards")
+			guards := false
+			ast.Inspect(fd.Body, func(m ast.Node) bool {
+				as, ok := m.(*ast.AssignStmt)
+				if !ok || len(as.Lhs) != 1 || len(as.Rhs) != 1 {
+					return true
+				}
+				if sel, ok := ast.Unparen(as.Lhs[0]).(*ast.SelectorExpr); ok && sel.Sel.Name == "Guards" {
+					if c, ok := ast.Unparen(as.Rhs[0]).(*ast.CallExpr); ok && guardFn != nil && callee(info, c) == guardFn {
+						guards = true
+					}
+				}
+				return true
+			})
+			r.Count("hunted clauses of the converter generator (4th round)", 1)
+			r.Check(guards, "flow/constructor-args-guarded", "languages.ConverterGenerator.constructorArgs computes not-nil guards", fd.Pos(), "each constructor argument carries the not-nil guards of its path",
+				"constructor arguments carry no guard: for an optional field promoted to the constructor (`b?: int64`) the Go converter evaluates *input.B and panics on every value in which b is absent")
+		}
+	}
+	if ts, err := loadTemplates(ctx, "golang"); err == nil {
+		if tree := ts.trees["converter"]; tree != nil {
+			tests := false
+			walkTmpl(tree.Root, func(n parse.Node) bool {
+				rn, ok := n.(*parse.RangeNode)
+				if !ok || !strings.Contains(rn.Pipe.String(), ".Converter.ConstructorArgs") {
+					return true
+				}
+				walkTmpl(rn.List, func(q parse.Node) bool {
+					if tn, ok := q.(*parse.TemplateNode); ok && tn.Name == "guards" {
+						tests = true
+					}
+					return true
+				})
+				return true
+			})
+			r.Count("hunted clauses of the converter generator (4th round)", 1)
+			r.Check(tests, "flow/constructor-args-guarded", "golang converter template tests the guards of constructor arguments", token.NoPos, ts.file["converter"]+": the guards of a constructor argument are tested before its value is read",
+				ts.file["converter"]+": the constructor arguments are read (and dereferenced) without testing their guards: the converter panics when an optional field promoted to the constructor is absent")
+		}
+	}
 	// (b)
 	if fn := ctx.LookupMethod("internal/languages", "ConverterGenerator", "mappingForOption"); fn != nil {
 		fd, _ := ctx.DeclOf(fn)
